@@ -80,6 +80,8 @@ var Alphabet = []Item{
 	{ID: "blkbare", Kind: kBlock, Tmpl: "blk§l1§l2·\"q\"·{\n}\n"},
 	{ID: "blklabcomment", Kind: kBlock, Tmpl: "blk·\"a\"·/* between */·b·{\n}·# after brace\n"},
 	{ID: "blkoneline", Kind: kBlock, Core: true, Tmpl: "blk·{·x·=·1·}\n"},
+	{ID: "blktrailinline", Kind: kBlock, Tmpl: "blk·\"t\"·{\n»k·=·1\n}·/* after brace, inline */\n"},
+	{ID: "blkonelinetrail", Kind: kBlock, Tmpl: "blk·{·x·=·1·}·/* one-line, inline */¦\n"},
 	{ID: "nested", Kind: kBlock, Core: true, Tmpl: "outer·\"o\"·{\n»x·=·1\n»inner·{\n»»y·=·\"v\"·# ny\n»»zzz·=·2\n»}\n\n»w·=·[¦]\n}\n"},
 	{ID: "blkbody", Kind: kBlock, Tmpl: "blk·{\n»# in body\n\n»k·=·1\n»/* tail */\n}\n"},
 	// comments and blank lines of their own
